@@ -8,7 +8,7 @@ ATOMS = ['0', '1', '2', '0.0', '1.5', '""', '"a"', '#t', '#f', 'x', 'top.cnt',
 OPS = ['if', 'do', '+', '*', '&&', '||']
 NEIGH = ['-', '=', '!', 'list', 'print', '>', 'first']
 
-SETUP = ['(define x 3)', '(define y 0)', '(define s "")', '(define xs (list 1 2))']
+SETUP = ['(define x 3)', '(define y 0)', '(define s "")', '(define xs (list 1 2))', "(defmacro q8 [e] `(list ',e ,e))"]
 PROBE = '(list x y INDEX)'
 
 
@@ -38,7 +38,17 @@ DYN = ['x', 's', 'xs', 'top.cnt', '(do (print "p") 3)', '(do (step) 0)', '(do (s
 
 def gen_sensitive(rng):
     """shapes on which the rewrites decide: literal conditions, literal prefixes followed by run-time operands"""
-    k = rng.choice(['if', 'if', '+', '+', '*', '&&', '||', 'do', 'nest', 'ifbool', 'fsum', 'typed', 'emptydo'])
+    k = rng.choice(['if', 'if', '+', '+', '*', '&&', '||', 'do', 'nest', 'ifbool', 'fsum', 'typed', 'emptydo', 'evalmacro', 'formarg'])
+    if k == 'formarg':
+        # neighbours that take an expression as it stands (evaluated later, per scope / per position): what the pass makes of a constant
+        # operand is still an expression they accept
+        e = rng.choice(['(+ 1 2)', '(if #t 1 2)', '(do 5)', '(* 2 3)', '(&& 1 2)', '(|| 0 0)', '(+ "a" "b")', '(+ x 1)'])
+        return rng.choice([f'(all-scopes {e})', f'(reval {e} 1)', f'(length (find {e}))', f'(in-scope "top" {e})', f'(timeframe {e})',
+                           f'(whenever (= top.clk 1) {e})'])
+    if k == 'evalmacro':
+        # code that is evaluated from data goes through the same passes in the same order: a macro called there sees its operand as written
+        e = rng.choice(['(+ 1 2)', '(if #t 1 2)', '(do 5)', '(* 2 3)', '(&& 1 2)', '(+ x 1)', '(+ 1 2 x)'])
+        return rng.choice([f"(eval '(q8 {e}))", f"(eval '(list (q8 {e}) {e}))", f"(let ([z 1]) (eval '(q8 {e})))", f'(q8 {e})'])
     if k == 'typed':
         # constant expressions whose operands are equal as numbers but differ in type: each folds to the value of its own type
         sets = [['(+ 1 2)', '(+ 1.0 2)', '(+ #t 2)', '(+ 1 2.0)'], ['(* 2 0)', '(* 2.0 0)', '(* 2 0.0)', '(* #t 0)'],
